@@ -563,7 +563,10 @@ def encoded(ctx, rr):
         encd = isinstance(v_, ast.Call) and isinstance(v_.func, ast.Attribute) and v_.func.attr == 'encode' and isinstance(v_.func.value, ast.Name) and v_.func.value.id == prm
         if not (same or encd):
             badr.append(r_)
-    rebinds = [a for a in P.own(enc, (ast.Assign, ast.AugAssign)) if prm in names_in_target(a.targets[0] if isinstance(a, ast.Assign) else a.target)]
+    def _is_enc(v_):
+        return isinstance(v_, ast.Call) and isinstance(v_.func, ast.Attribute) and v_.func.attr == 'encode' and isinstance(v_.func.value, ast.Name) and v_.func.value.id == prm
+    rebinds = [a for a in P.own(enc, (ast.Assign, ast.AugAssign)) if prm in names_in_target(a.targets[0] if isinstance(a, ast.Assign) else a.target)
+               and not (isinstance(a, ast.Assign) and _is_enc(a.value))]
     rr.ob(ctx.where(enc), '__encode returns its argument itself (bytes) or its argument encoded (text), nothing else', ok=not badr and not rebinds)
     for x in (badr + rebinds)[:1]:
         rr.fail(ctx.finding('R-ENCODED', enc, x, 'Traph.__encode alters the LRU (`%s`): two different submitted LRUs can be stored as one, and the LRU read back is not the LRU submitted'
